@@ -72,7 +72,7 @@ def pickle_bounds(path):
         while True:
             try:
                 pickle.load(f)
-            except EOFError:
+            except Exception:          # end of file, or a layout that is not a plain sequence of pickles: use what was found
                 break
             out.append(f.tell())
     return out
@@ -92,15 +92,20 @@ def one_file(sd, root, step, big=None):
         infos = []
         path = os.path.join(w.dir, 'out.fitinfo')
         handmade = (sd % 2 == 1) or big is not None       # records built through the public FitInfo constructor with plain arrays
+        prev = None
         for i in range(nrec):
-            info = w.fit(fw.make_source(rand_source(rng, nb, False), name='s%d' % i))
+            # a record often has exactly the byte size of the one before it (same number of fits, names of equal length)
+            twin = prev is not None and big is None and rng.random() < 0.4
+            srcd, keepn, nf0 = prev if twin else (rand_source(rng, nb, False), rng.randint(0, nm), rng.choice([0, 1, 3, 17, 60]))
+            prev = (srcd, keepn, nf0)
+            info = w.fit(fw.make_source(srcd, name='s%d' % i))
             if not conv:
                 info.model_fluxes = None
-            info.keep(('N', rng.randint(0, nm)))
+            info.keep(('N', keepn))
             if handmade:
                 from sedfitter.fit_info import FitInfo
                 h_ = FitInfo(source=info.source)
-                nf = rng.choice([0, 1, 3, 17, 60]) if (big is None or i > 0) else big
+                nf = nf0 if (big is None or i > 0) else big
                 h_.av = np.linspace(0.5, 9.5, nf)
                 h_.sc = -np.linspace(0.25, 2.0, nf)
                 h_.chi2 = np.sort(rng.random() * 50.0 + np.arange(nf) * 1.25)
